@@ -28,6 +28,9 @@ extern "C" int LLVMFuzzerTestOneInput(const uint8_t* data, size_t size) {
     String s(p, size);
     String out = String::fromBase64(s);
     if (out.length() > size) fuzz::fail("fromBase64 produced more bytes than its input has");
+    { char* blk = (char*)malloc(size + 1); memcpy(blk, p, size); blk[size] = 0; String at; at.attach(blk, size);   // attached to the start of an exact (terminated) block
+      String out2 = String::fromBase64(at); bool same = out2.length() == out.length() && memcmp((const char*)out2, (const char*)out, out.length()) == 0; free(blk);
+      if (!same) fuzz::fail("fromBase64 of an attached text differs from fromBase64 of its copy"); }
     bool high = false; for (size_t i = 0; i < size; ++i) if (data[i] & 0x80) high = true;
     if (out.length()) { fuzz::label("decoded"); fuzz::nontrivial(data, size); } else if (high) fuzz::label("rejected_high_bytes");
   }
